@@ -43,7 +43,8 @@ Added probe families (helpers in harness/s5_c13.py):
    of the Lean model of the scanner and the declaration handlers (`CstructModel/DefParser.lean`, driver command `parsedecls`) is compared
    with the declarations recorded from the REAL parser (a recording subclass of `TokenParser`, nothing in /repo is changed), and the
    model's token list (`scandef`) with the tokens of `re.Scanner` over the live regex table; the live regex table itself is compared with
-   the table the model was written against.  Hand-written edge texts (v1.EDGE_TEXTS) exercise the error paths and the scanner quirks.
+   the table the model was written against.  Hand-written edge texts (v1.EDGE_TEXTS), random token soup and character-level mutants of generated definitions exercise the error
+   paths and the scanner quirks (these texts are mostly rejected; only the model/implementation agreement is checked on them).
 """
 from __future__ import annotations
 
@@ -545,6 +546,23 @@ def run(env) -> Result:
         res.disagreements.append(Case("corr", f"the scanner's regex table differs from the one the Lean model mirrors: {diff[:2]!r}", {"diff": repr(diff)}))
     for text in v1.EDGE_TEXTS:
         res.count(("parser-edge", text))
+        probe_parser(text)
+    srnd = mkrng(env["seed"], "c13-scan")
+    for i in range(1500 if tier == "quick" else 40000):
+        text = v1.soup(srnd, srnd.randint(1, 14))
+        if text in probed:
+            continue
+        res.count(("parser-soup", text), False)
+        if i % 3 == 0:
+            probe_parser(text)
+        else:
+            probed.add(text)
+            lines.append(v1.token_request(dc, text))
+            metas.append(("toks", text, v1.real_tokens(dc, text)))
+    for _ in range(300 if tier == "quick" else 8000):
+        its = gen_items(srnd, srnd.randint(1, 4))
+        text = v1.char_mutant(srnd, render(its, srnd if srnd.random() < 0.7 else None, rich=srnd.random() < 0.3))
+        res.count(("parser-char-mutant", text), False)
         probe_parser(text)
     probe = rand_bytes(rnd, 64)
     for _ in range(70 if tier == "quick" else 2500):
